@@ -142,7 +142,15 @@ class Hub(object):
                 raise env.BoundReached("no pending event")
 
     def new_records(self):
-        """(individual, record) pairs written since the previous call."""
+        """(individual, record) pairs written since the previous event boundary (same list for every monitor)."""
+        if getattr(self, "_nr_at", None) == self.nevents:
+            return self._nr_cache
+        out = self._new_records()
+        self._nr_at = self.nevents
+        self._nr_cache = out
+        return out
+
+    def _new_records(self):
         out = []
         Q = self.Q
         seen = self._recs_seen
